@@ -184,6 +184,13 @@ def check_case(case):
     if len(got_labels) != len(new_labels) or any(spans.pos([a], b) != 0 for a, b in zip(got_labels, new_labels)):
         res.fail('result/span', f'{detail}: result span {got_labels!r}')
         return res
+    if spans.is_pandas(case['new']) or case['new']['k'] == 'np':
+        # "whose span is new_span": the index / array that was passed, not a list of its elements (partial-string lookups,
+        # slicing and .get_loc only exist on the index)
+        if not isinstance(new.span, type(new_span)):
+            res.fail('result/span-type/' + case['new']['k'], f'{detail}: result span is a {type(new.span).__name__}, '
+                     f'a {type(new_span).__name__} was passed')
+            return res
     if list(new.index) != list(obj.index):
         res.fail('result/variable-order', f'{detail}: index {list(new.index)} vs {list(obj.index)}')
         return res
